@@ -117,6 +117,12 @@ fn gen_top(rng: &mut Rng, wordmask: u16, cap_px: u64, max_count: u64) -> TOp {
                 4 => 40,
                 _ => rng.range(0, 16),
             } as usize;
+            if rng.chance(1, 30) {
+                // a long run of identical parameter bytes (raw commands may carry whole lines)
+                let b = rng.next() as u8;
+                let n = rng.range(250, 600) as usize;
+                return TOp::Cmd { cmd: rng.next() as u8, params: vec![b; n] };
+            }
             TOp::Cmd { cmd: rng.next() as u8, params: (0..plen).map(|_| rng.next() as u8).collect() }
         }
         r => {
@@ -234,6 +240,7 @@ pub fn c06(args: &Args) -> Acc {
     let acc = par_cases(n, args.threads, if n == 0 { None } else { args.case }, |idx, a| {
         let mut rng = Rng::for_case(args.seed, "C06", &args.tier, idx);
         let buf_len = match rng.below(8) {
+            0 if rng.chance(1, 6) => 0, // no staging buffer at all: commands must still work
             0 => 4,
             1 => 5,
             2 => rng.range(4, 14) as usize,
